@@ -330,6 +330,7 @@ Proof.
   - destruct (blacklist_frame c (delete_pending s p h) p h) as [E _]. cbn [fst]. rewrite E. apply cap_delete_pending. exact H.
   - apply cap_delete_pending. exact H.
   - exact H.
+  - pose proof (cap_add_pending c s p h nbrs H). destruct (add_pending c s p h nbrs). exact H0.
   - exact H.
   - exact H.
   - exact H.
@@ -440,6 +441,7 @@ Proof.
   - destruct (blacklist_frame c (delete_pending s p h) p h) as [E _]. cbn [fst]. rewrite E. apply excl_delete_pending. exact H.
   - apply excl_delete_pending. exact H.
   - exact H.
+  - pose proof (excl_add_pending c s p h nbrs H). destruct (add_pending c s p h nbrs). exact H0.
   - exact H.
   - exact H.
   - exact H.
@@ -605,6 +607,7 @@ Proof.
     apply delete_pending_keeps. exact L.
   - apply delete_pending_keeps. exact L.
   - exact L.
+  - pose proof (add_pending_keeps c s p0 h0 nbrs _ _ L). destruct (add_pending c s p0 h0 nbrs). exact H.
   - exact L.
   - exact L.
   - exact L.
@@ -725,6 +728,7 @@ Proof.
   - destruct (blacklist_frame c (delete_pending s p h) p h) as [_ E]. destruct (delete_pending_frame s p h) as [_ E2]. cbn [fst]. lia.
   - destruct (delete_pending_frame s p h) as [_ E]. cbn [fst]. lia.
   - cbn. lia.
+  - destruct (add_pending_frame c s p h nbrs) as [_ E]. destruct (add_pending c s p h nbrs). cbn [fst] in *. lia.
   - cbn; lia.
   - cbn; lia.
   - cbn; lia.
@@ -812,6 +816,7 @@ Proof.
   - cbn [fst clear_blacklist bl]. destruct (N.eqb_spec h h0) as [->|Hh].
     + left. split; [reflexivity|]. apply lookup_clear_same. reflexivity.
     + right. split; [reflexivity|]. left. apply lookup_clear. cbn [fst]. congruence.
+  - right. split; [reflexivity|]. left. destruct (add_pending_frame c s p0 h0 nbrs) as [E _]. destruct (add_pending c s p0 h0 nbrs). cbn [fst] in *. rewrite E. reflexivity.
   - right. split; [reflexivity|]. left. reflexivity.
   - right. split; [reflexivity|]. left. reflexivity.
   - right. split; [reflexivity|]. left. reflexivity.
@@ -1049,6 +1054,10 @@ Proof.
   - destruct (negb known); [reflexivity|]. destruct complete; [reflexivity|].
     pose proof (announce_loop_state c s h self peers) as E.
     destruct (announce_loop c s h self peers) as [s' d]. cbn [fst snd] in *. symmetry. exact E.
+
+  - destruct (add_pending_spec c s p h nbrs) as [(Ho & _ & _ & _ & E)|[Ho E]];
+      destruct (add_pending c s p h nbrs) as [s' r]; cbn [fst snd] in *; subst; [reflexivity|].
+    destruct r; try contradiction; reflexivity.
 Qed.
 
 Lemma cap_clause_nil c s h :
@@ -1091,6 +1100,13 @@ Proof.
     + destruct (Z.ltb_spec (c_max c) 1) as [Hm|Hm]; [reflexivity|]. cbn [orb]. apply Z.leb_le.
       rewrite <- (set_pending_count d s h ND) by (intros q Hq; destruct (D q Hq) as (_ & _ & _ & L); exact L).
       rewrite <- ST. apply CA. apply Hcap. exact Hm.
+  - destruct (add_pending_spec c s p h nbrs) as [(Ho & Hc & Ln & M & E)|[Ho E]];
+      destruct (add_pending c s p h nbrs) as [s' r]; cbn [fst snd] in *; subst.
+    + unfold connected. rewrite Ln. cbn [negb andb]. rewrite andb_true_r.
+      apply andb_true_iff. split; [|apply Z.leb_le; exact M].
+      destruct (Z.ltb_spec (c_max c) 1) as [Hm|Hm]; [reflexivity|]. cbn [orb].
+      apply Z.ltb_lt. specialize (Hcap Hm h). lia.
+    + destruct r; try contradiction; reflexivity.
   - unfold listN_eqb. generalize (sortN (active_ids (conns s))). intros l. induction l as [|x t IH]; [reflexivity|].
     cbn. rewrite N.eqb_refl. exact IH.
   - destruct (blacklisted s (h, p)); reflexivity.
